@@ -16,3 +16,4 @@ def run(rep, tier, seed, scratch):
     for u in (Transform(), IterateUnit(), Loop()):
         run_unit(rep, u, u.gen(g, tier), scratch)
     camp_props.run_single(rep, 'C01', tier, seed, 40, 300, allow={'iteration_limit': 400}, families=['convex_qp', 'convex_qp', 'nonlinear'])
+    camp_props.run_integration(rep, tier, seed)
